@@ -9,6 +9,10 @@ CLAIMED = {
  "C14": ("§2 C14", "typed-AST exhaustiveness + per-case path enumeration + CFG must-pass-through (go/types, own CFG)",
   "Decides from the source that syntax.Walk has a case for every parser-constructible node type, that each case hands every child and comment field to a visiting helper exactly once on every path, that f(node)/f(nil) bracket the children on every path and that Preorder cannot yield after the consumer stopped. This is the structural part of 'visits every node exactly once'; it quantifies over all code paths of Walk rather than over sampled trees.",
   "Trusts go/types and the checker's CFG construction; assumes trees are acyclic and nodes are built only in package syntax; does not decide the comment-order invariant behind the break in the trailing-comment loops."),
+
+ "C15": ("§2 C15", "registry/type-table agreement, constant-folded stringer tables inverted through UnmarshalText switches, forward dataflow of reflect kinds over a decomposed-condition CFG",
+  "Decides that the decoder registry covers exactly the Node types; that every field reachable from a node type is of a kind both encoder and decoder handle; that every operator constant's wire string (evaluated from the stringer tables in the source) is mapped back to the same value; and that every reflect operation in decodeValue/decodePos that panics on a mismatching kind/type is dominated by the test that makes it safe (the 'Decode never panics' clause, for the reflect layer). These are necessary conditions of the round trip over all trees and all JSON inputs.",
+  "Trusts encoding/json's documented output types and reflect's documented panics; does not decide byte-identical re-encoding nor field-by-field equality of decoded trees."),
 }
 
 # id -> reason (properties not claimed)
